@@ -52,6 +52,18 @@ def bounds(L):
 '''
 
 
+def _flat_concat(v):
+    """the pieces of the optimisation vector are 1-D: hstack, concatenate and append along axis 0 build the same vector"""
+    if not isinstance(v, Rat):
+        return v
+
+    def f(a):
+        if isinstance(a, Fn) and a.name == "concat" and len(a.args) == 2:
+            return Rat.atom(Fn("concat", (a.args[0], "1-D")))
+        return None
+    return v.subst(f)
+
+
 def _val1(I, f, args):
     vals = [v for c, v in I.returns(f, list(args))]
     if len(vals) != 1:
@@ -104,8 +116,8 @@ def check(rep, ix):
                     what="target moments")
     else:
         rep.violation("E4.call", g.fq + ": args", "objective arguments are not (L, mom0): %s" % (nf(a, 200),), where)
-    check_equal(rep, "E4.call", g.fq + ": x0 = [equivalent-layers heights/h_scaling, strengths/cn2_scaling]", given.get("x0"),
-                _val1(Io, O("start"), [h, p, L, hs, cs]), where, what="starting point")
+    check_equal(rep, "E4.call", g.fq + ": x0 = [equivalent-layers heights/h_scaling, strengths/cn2_scaling]", _flat_concat(given.get("x0")),
+                _flat_concat(_val1(Io, O("start"), [h, p, L, hs, cs])), where, what="starting point")
     check_equal(rep, "E4.call", g.fq + ": bounds = 2L x (0, None)", given.get("bounds"), _val1(Io, O("bounds"), [L]), where,
                 what="box constraints")
     # result mapping
